@@ -203,4 +203,10 @@ def sensitivity(args):
         finally:
             shutil.rmtree(scratch, ignore_errors=True)
     print(f"sensitivity: {len(rows)} (change, property) pairs, missed {missed}")
+    if not args:  # full sweep: keep the table
+        with open(os.path.join(core.VERIF_DIR, "SENSITIVITY.txt"), "w") as f:
+            f.write(f"# cli.py selftest sensitivity --tier {tier}: every seeded change and hand-written mutant applied to a scratch copy of /repo\n")
+            f.write(f"# {len(rows)} (change, property) pairs, missed {missed}\n")
+            for name, pid, caught, kinds, wall in rows:
+                f.write(f"{name}\t{pid}\tcaught={caught}\t{','.join(kinds)}\t{wall}s\n")
     return 1 if missed else 0
